@@ -4,7 +4,7 @@
    content, a failed sync makes nothing durable, a failed delete keeps the file): the trace of the
    SUCCESSFUL operations of a faulty run is an ordinary trace of coq/Storage/Crash.v, so the
    discipline theorems apply to it verbatim. *)
-From TV Require Import Base.Prelude Storage.Crash Storage.CrashProofs.
+From TV Require Import Base.Prelude Storage.Crash Storage.CrashProofs Storage.WriteOnce Storage.Faults.
 Local Open Scope N_scope.
 
 (* A commit call that returns Ok(o) is complete and durable: at the moment it returns, the durable
@@ -41,3 +41,12 @@ Proof. vm_compute. split; reflexivity. Qed.
 
 Print Assumptions C11_ok_commit_is_complete.
 Print Assumptions C11_last_commit_intact.
+
+(* F111 (known): the mechanism behind "the retried batch fails after a commit that failed once" -- the failed attempt
+   created <segment>.<opstamp>.del, nothing removed it, the retry asks for the same name and create-new refuses; the
+   classifier of the check (Storage/Faults.v f111_class) accepts a late failure only when every name it collided with is
+   such a leftover. *)
+Theorem C11_F111_mechanism : forall p n, wfirst_bad [WOpen p; WAppend p n; WOpen p] = Some 2.
+Proof. exact f111_mechanism. Qed.
+Theorem C11_F111_class_is_narrow : f111_class [10; 11] [11] = true /\ f111_class [10; 11] [12] = false /\ f111_class [10] [] = false.
+Proof. vm_compute. repeat split; reflexivity. Qed.
